@@ -52,6 +52,27 @@ CRATES = {
 
 TREE_TAG = "t" + hashlib.sha256(REPO.encode()).hexdigest()[:8]
 
+
+def _ext_crate_for_tree():
+    """The external harness crate names /repo/gsd-parser as path dependency.  When another tree is
+    checked (VERIF_REPO), work on a scratch copy of the crate whose dependency points there."""
+    if REPO == "/repo":
+        return
+    src = CRATES["ext-gsd"]["cwd"]
+    dst = os.path.join(CACHE, "ext", TREE_TAG, "ext-gsd")
+    shutil.rmtree(dst, ignore_errors=True)
+    shutil.copytree(src, dst, ignore=shutil.ignore_patterns("target"))
+    with open(os.path.join(dst, "Cargo.toml")) as f:
+        toml = f.read()
+    with open(os.path.join(dst, "Cargo.toml"), "w") as f:
+        f.write(toml.replace('"/repo/gsd-parser"', '"%s/gsd-parser"' % REPO))
+    CRATES["ext-gsd"]["cwd"] = dst
+    CRATES["ext-gsd"]["src"] = [os.path.join(REPO, "gsd-parser", "src"), os.path.join(REPO, "gsd-parser", "Cargo.toml"),
+                                os.path.join(src, "src"), os.path.join(src, "Cargo.toml")]
+
+
+_ext_crate_for_tree()
+
 print_lock = threading.Lock()
 
 
